@@ -25,13 +25,34 @@ def planted(rng, nx, nt, secs_idx, noisy, s, model="constant"):
     return x, st, noise
 
 
-def sections_from(x, secs_idx, order, names=("a", "b", "c")):
-    """secs_idx: list of (i0, i1) stretches; order: permutation of range(len); each stretch its own key or shared"""
+def sections_from(x, secs_idx, order, names=("a", "b", "c"), shared=False):
+    """secs_idx: list of (i0, i1) stretches; order: permutation of range(len); each stretch its own key, or all stretches of ONE bath in the listed order"""
     d = {}
     for k in order:
         i0, i1 = secs_idx[k]
-        d.setdefault(names[k % len(names)], []).append(slice(float(x[i0]), float(x[i1])))
+        d.setdefault(names[0] if shared else names[k % len(names)], []).append(slice(float(x[i0]), float(x[i1])))
     return d
+
+
+def reference_estimate(y, x, secs_idx, est):
+    """independent pooled-residual estimate: best rank-1 fit per stretch (SVD) for the constant estimator; weighted log-linear least squares
+    (weights y) per stretch for the exponential one; variance of the pooled residuals with ddof=1"""
+    res = []
+    nt = y.shape[1]
+    for a, b in secs_idx:
+        d = y[a:b + 1]
+        if est == "constant":
+            u, sv, vt = np.linalg.svd(d, full_matrices=False)
+            res.append((sv[0] * np.outer(u[:, 0], vt[0]) - d).ravel())
+        else:
+            n = d.shape[0]
+            A = np.zeros((n * nt, 1 + nt))
+            A[:, 0] = np.repeat(x[a:b + 1], nt)
+            A[np.arange(n * nt), 1 + np.tile(np.arange(nt), n)] = 1.0
+            yy = d.ravel()
+            sol = np.linalg.lstsq(A * yy[:, None], np.log(yy) * yy, rcond=None)[0]
+            res.append(np.exp(A @ sol) - yy)
+    return float(np.concatenate(res).var(ddof=1))
 
 
 def run_case(ctx, p, exprs, meta):
@@ -42,12 +63,17 @@ def run_case(ctx, p, exprs, meta):
     secs_idx = [tuple(v) for v in p["stretches"]]
     est = p["estimator"]
     x, st0, noise = planted(rng, nx, nt, secs_idx, p["noisy"], s, "constant" if est != "exponential" else "exponential")
+    shared = bool(p.get("shared"))
+    if est == "linear":  # planted var = a*st + b with clearly different intensity levels in the stretches
+        for j, (i0, i1) in enumerate(secs_idx):
+            st0[i0:i1 + 1] *= (1.0, 0.4, 0.15)[j % 3]
+        noise = rng.normal(size=st0.shape) * np.sqrt(p["a"] * st0 + p["b"])
     acq = xr.DataArray(np.full(nt, 2.0), dims=["time"])
     mk = lambda arr: xr.DataArray(arr, dims=["x", "time"], coords={"x": x, "time": np.arange(nt)})
     fn = {"constant": variance_stokes_constant, "exponential": variance_stokes_exponential}.get(est)
     results = {}
     for order in p["orders"]:
-        sec = sections_from(x, secs_idx, order)
+        sec = sections_from(x, secs_idx, order, shared=shared)
         rec = {**p, "order": list(order)}
         ctx.case(("c10", p["seed"], est, tuple(order)), sample=rec)
         ctx.count(f"{est}")
@@ -55,6 +81,8 @@ def run_case(ctx, p, exprs, meta):
             if est == "linear":
                 out = variance_stokes_linear(mk(st0 + noise), sec, acq, nbin=p.get("nbin", 10))
                 results[tuple(order)] = (float(out[0]), float(out[1]))
+                if not (abs(float(out[0]) / p["a"] - 1) < 0.3 and abs(float(out[1]) - p["b"]) < 0.5 * p["b"] + 0.3 * p["a"] * float(st0.mean())):
+                    ctx.violation(f"linear-slope-offset-not-recovered:shared={int(shared)}", f"planted var = {p['a']}*st + {p['b']}; estimated slope {float(out[0])}, offset {float(out[1])}", rec)
                 continue
             var, resid = fn(mk(st0 + noise), sec, acq)
             var0, resid0 = fn(mk(st0), sec, acq)
@@ -63,6 +91,12 @@ def run_case(ctx, p, exprs, meta):
             continue
         r = np.asarray(resid.values)
         results[tuple(order)] = float(var)
+        pooled = float(np.var(r[np.isfinite(r)], ddof=1))
+        if abs(float(var) - pooled) > 1e-9 * pooled:
+            ctx.violation(f"estimate-is-not-variance-of-returned-residuals:{est}", f"estimate {float(var)} but the returned residuals have variance {pooled}", rec)
+        refv = reference_estimate(st0 + noise, x, secs_idx, est)
+        if abs(float(var) - refv) > 1e-5 * refv:
+            ctx.violation(f"estimate-differs-from-reference:{est}", f"estimate {float(var)}; independent pooled-residual reference {refv}", rec)
         # residuals exactly at the reference locations and times, NaN elsewhere
         inside = np.zeros(nx, bool)
         for a, b in secs_idx:
@@ -96,7 +130,7 @@ def run_case(ctx, p, exprs, meta):
     # scaling law
     if est in ("constant", "exponential") and p.get("scale"):
         k = p["scale"]
-        sec = sections_from(x, secs_idx, p["orders"][0])
+        sec = sections_from(x, secs_idx, p["orders"][0], shared=shared)
         v1, _ = fn(mk(st0 + noise), sec, acq)
         v2, _ = fn(mk(k * (st0 + noise)), sec, acq)
         if not abs(float(v2) / (k * k * float(v1)) - 1) < 2e-3:
@@ -106,7 +140,7 @@ def run_case(ctx, p, exprs, meta):
 def gen(ctx):
     rng = ctx.rng("c10")
     out = []
-    n = 3 if ctx.quick else 20
+    n = 4 if ctx.quick else 24
     for k in range(n):
         nx = int(rng.integers(24, 34))
         cuts = np.sort(rng.choice(np.arange(2, nx - 2), size=5, replace=False))
@@ -114,11 +148,21 @@ def gen(ctx):
         stretches = [s for s in stretches if s[1] - s[0] >= 3][:3]
         if len(stretches) < 2:
             continue
+        if k % 2 == 1:  # clearly unequal lengths: one short stretch next to a long one
+            nx = int(rng.integers(60, 90))
+            stretches = [(3, 7), (12, nx - 3)] if k % 4 == 1 else [(3, nx - 14), (nx - 8, nx - 3)]
         orders = [tuple(range(len(stretches))), tuple(reversed(range(len(stretches))))]
         for est in ("constant", "exponential", "linear"):
-            if est == "linear" and ctx.quick and k > 0:
+            if est == "linear":
+                if ctx.quick and k > 1:
+                    continue
+                nxl = 80
+                sl = [(5, 30), (45, 75)] if k % 2 == 0 else [(4, 20), (30, 50), (56, 76)]
+                out.append({"seed": int(rng.integers(1 << 30)), "nx": nxl, "nt": 60, "s": 1.0, "stretches": sl, "noisy": 0, "estimator": est,
+                            "orders": [tuple(range(len(sl))), tuple(reversed(range(len(sl))))], "scale": None, "shared": bool(k % 2 == 0) or bool(rng.random() < 0.5),
+                            "a": float(rng.choice([0.01, 0.02, 0.05])), "b": float(rng.choice([2.0, 5.0])), "nbin": int(rng.choice([10, 20, 40]))})
                 continue
-            out.append({"seed": int(rng.integers(1 << 30)), "nx": nx, "nt": int(rng.integers(6, 10)) if est != "linear" else 30, "s": float(rng.choice([2.0, 10.0, 40.0])),
+            out.append({"shared": bool(rng.random() < 0.3), "seed": int(rng.integers(1 << 30)), "nx": nx, "nt": int(rng.integers(6, 10)) if est != "linear" else 30, "s": float(rng.choice([2.0, 10.0, 40.0])),
                         "stretches": stretches, "noisy": int(rng.integers(len(stretches))), "estimator": est, "orders": orders,
                         "scale": float(rng.choice([0.01, 7.0, 300.0])) if est != "linear" else None})
     return out
@@ -127,7 +171,9 @@ def gen(ctx):
 def run(ctx):
     ctx.extra["rule"] = ("seeded intensities of the estimator's model form with noise planted in ONE stretch (2-3 stretches on 24-34 locations, 6-10 times), evaluated for the sections "
                          "dictionary in ascending and in reversed order: residuals must be finite exactly at the reference cells, large only in the noisy stretch; noise-free estimate "
-                         "~ 0; estimate independent of the order; var(k st) = k^2 var(st); the concatenation order of the constant estimator compared with Model/VarStokes.v in Coq")
+                         "~ 0; estimate independent of the order (also of the order of the stretches WITHIN one bath); estimate = variance of the returned residuals = an independent pooled-residual "
+                         "reference (SVD rank-1 fit / weighted log-linear fit per stretch, 1e-5), with equal and with very unequal stretch lengths; var(k st) = k^2 var(st); variance_stokes_linear on a planted "
+                         "var = a st + b (slope within 30%); the concatenation order of the constant estimator compared with Model/VarStokes.v in Coq")
     ctx.trusted += ["harness vlib/props/c10.py", "scipy Powell and LSQR are judged, not modelled"]
     ctx.assumptions += ["convergence to s2 (1 - p/n) and slope/offset recovery are sampling support (thorough tier), not theorems", "noise-free ~ 0 is judged relative to the squared mean intensity (1e-6)"]
     exprs, meta = [], []
